@@ -230,7 +230,7 @@ class R:
     def dunder(self, i):
         out = set()
         for j in self.lit(i, "__"):
-            if j < self.n and self.t[j].isalpha() and self.t[j] not in RESERVED:
+            if j < self.n and self.t[j].isalpha() and (RELAXED[0] or self.t[j] not in RESERVED):
                 for k in self.lit(j + 1, "__"):
                     for b in self.m("parens", k):
                         out |= self.lit(b, ";")
